@@ -382,7 +382,7 @@ class StreamProxy:
         return RS()
 
 
-class _NPS:
+class _NPS(sx.Conversions):
     def __init__(self, rnd):
         self.random = rnd
 
@@ -408,7 +408,8 @@ def sc_seed_ckm(cfg):
         D = numpy.array([[float(C.inputs.get(f"d_{i}_{j}", abs(i - j) + 0.5)) if not C.symbolic else abs(i - j) + 0.5 for j in range(n)] for i in range(k)], dtype=object)
         if C.symbolic:
             sx.cur().abstract_division = True
-        est = kc.ConstraintKMeans(n_clusters=k, strategy=cfg["strategy"], kmeans0=cfg["kmeans0"], random_state=cfg["seed"], max_iter=2, balanced_predictions=True)
+        seed = numpy.int64(cfg["seed"]) if cfg.get("numpy_int") else cfg["seed"]
+        est = kc.ConstraintKMeans(n_clusters=k, strategy=cfg["strategy"], kmeans0=cfg["kmeans0"], random_state=seed, max_iter=2, balanced_predictions=True)
 
         def parent_fit(self, Xa, y=None, sample_weight=None):
             self.labels_ = numpy.array([0, 1], dtype=numpy.int32)
@@ -442,7 +443,7 @@ def replay_seed_ckm(cfg, inputs, label):
         res = []
         for gs in (1, 2, 3):
             numpy.random.seed(gs)
-            est = kc.ConstraintKMeans(n_clusters=3, strategy=cfg["strategy"], random_state=0 if cfg["seed"] is None else cfg["seed"], kmeans0=cfg["kmeans0"], max_iter=5, balanced_predictions="predict" in label)
+            est = kc.ConstraintKMeans(n_clusters=3, strategy=cfg["strategy"], random_state=0 if cfg["seed"] is None else (numpy.int64(cfg["seed"]) if cfg.get("numpy_int") else cfg["seed"]), kmeans0=cfg["kmeans0"], max_iter=5, balanced_predictions="predict" in label)
             try:
                 est.fit(X)
             except AssertionError:
@@ -524,6 +525,7 @@ def configs(tier):
     for strategy in ("distance", "gain"):
         for kmeans0 in (True, False):
             out.append(dict(kind="seed_ckm", strategy=strategy, kmeans0=kmeans0, seed=0 if kmeans0 else 7))
+    out.append(dict(kind="seed_ckm", strategy="distance", kmeans0=True, seed=5, numpy_int=True))  # random_state=numpy.int64(5)
     for seed in (3, None):
         out.append(dict(kind="seed_kml1", seed=seed))
     for seed in (0, 11):
